@@ -113,9 +113,9 @@ def make(rng, cls, n):
         P = refq.rand_unitary(rng, n)
         return refq.matmul(refq.matmul(P, refq.qa(c)), refq.herm(P))
     if cls == "scaled_small":
-        return refq.randq(rng, n, n) * 1e-6
+        return refq.randq(rng, n, n) * float(rng.choice([1e-6, 1e-13]))
     if cls == "scaled_big":
-        return refq.randq(rng, n, n) * 1e6
+        return refq.randq(rng, n, n) * float(rng.choice([1e6, 1e13]))
     if cls == "layout":
         return gen.layout(refq.randq(rng, n, n), str(rng.choice(gen.LAYOUTS)))
     if cls == "tridiag":
